@@ -428,6 +428,9 @@ class BGP(protocol.Protocol):
             :return:
         """
 
+        # a KEEPALIVE with a wrong length is a message header error, not a KEEPALIVE
+        KeepAlive().parse(msg)
+
         # deal with all request in internal message queue
         # until the queue is empty
         while not self.handler.inter_mq.empty() and self.msg_recv_stat['Keepalives'] > 0:
@@ -445,7 +448,6 @@ class BGP(protocol.Protocol):
         self.handler.keepalive_received(self, timestamp)
 
         LOG.info("[%s]A BGP KeepAlive message was received from peer.", self.factory.peer_addr)
-        KeepAlive().parse(msg)
 
         self.fsm.keep_alive_received()
 
